@@ -61,7 +61,8 @@ for op in job["ops"]:
     before = _gen["n"]
     rec = {}
     try:
-        probe = DDLParser("create table a (b int);")
+        # (every second history builds its first parser in strict mode: which tables are used must not depend on the silent flag)
+        probe = DDLParser("create table a (b int);", **job.get("probe_flags", {}))
         rec["build"] = "ok"
     except BaseException as e:  # noqa
         rec["build"] = "exc:" + type(e).__name__
